@@ -14,6 +14,8 @@ TECH = {
     "C03": "static analysis: abstract emission simulation of the EDIF composer (paren balance, construct nesting) vs parser dispatch tables",
     "C04": "static analysis: delimiter-balance dataflow over the Verilog composer + token/metadata-key table agreement with the parser",
     "C07": "static analysis: clone pointer-closure dataflow (copied-through fields vs memo remaps), slot coverage, source-immutability effects",
+    "C08": "static analysis: must-pass / ordering dataflow over the CFG of uniquify's work list, clone placement and re-pointing, fresh-name counter discipline",
+    "C09": "static analysis: must-pass / ordering dataflow over the CFG of flatten's work list, paired-queue agreement, snapshot iteration, disconnect/connect pairing",
     "C10": "static analysis: handler-coverage / check-before-update dataflow / case-fold taint / schema-table agreement over the namespace plugin",
     "C11": "static analysis: factory-only construction, immutability, kind inference of hierarchical-reference chains, naming-convention agreement",
     "C12": "static analysis: kind inference (abstract interpretation) of hierarchical-reference chains at closure sites + Selection exhaustiveness",
